@@ -45,6 +45,11 @@ impl Value {
     fn ObjString(g: Gc<ObjString>) -> Value { unimplemented!() }
 }
 
+impl Token {
+    #[verifier::external_body]
+    pub fn from_string(source: &str) -> (r: Token) ensures r.source@ == source@ { unimplemented!() }
+}
+
 #[verifier::external_body]
 fn string_clone(a: &String) -> (r: String) ensures r@ == a@ { a.clone() }
 
@@ -103,14 +108,25 @@ impl Compiler {
     //@  ensures r ==> final(self).locals@.last().name@ == name.source@ && final(self).locals@.last().depth.is_none() && !final(self).locals@.last().is_captured
     //@  ensures !r ==> old(self).locals@.len() == 256 && final(self).locals@ == old(self).locals@
     //@  ensures final(self).upvalues@ == old(self).upvalues@ && final(self).chunk == old(self).chunk && final(self).scope_depth == old(self).scope_depth
+    //@  ensures same_compiler_but_locals(*old(self), *final(self))
     //@end
 
     //@fn file=yarel/src/compiler.rs path=Compiler::mark_initialised props=C04,C06
-    //@  requires (local as int) < old(self).locals.len()
+    //@  requires (local as int) < old(self).locals.len(), old(self).wf()
+    //@  ensures final(self).wf(), same_compiler_but_locals(*old(self), *final(self))
     //@  ensures final(self).locals@.len() == old(self).locals@.len()
     //@  ensures final(self).locals@[local as int].depth == Some(old(self).scope_depth)
     //@  ensures final(self).locals@[local as int].name == old(self).locals@[local as int].name
     //@  ensures forall|j: int| 0 <= j < old(self).locals@.len() && j != local ==> final(self).locals@[j] == old(self).locals@[j]
+    //@end
+
+
+    //@fn file=yarel/src/compiler.rs path=Compiler::mark_last_initialised props=C04,C06
+    //@  requires old(self).locals@.len() > 0, old(self).wf()
+    //@  ensures final(self).wf(), final(self).locals@.len() == old(self).locals@.len()
+    //@  ensures final(self).locals@.last().depth == Some(old(self).scope_depth) && final(self).locals@.last().name == old(self).locals@.last().name
+    //@  ensures forall|j: int| 0 <= j < old(self).locals@.len() - 1 ==> final(self).locals@[j] == old(self).locals@[j]
+    //@  ensures same_compiler_but_locals(*old(self), *final(self))
     //@end
 
     //@fn file=yarel/src/compiler.rs path=Compiler::resolve_local ret=r props=C04,C06
@@ -162,6 +178,24 @@ impl Compiler {
     //@  subst "self.loop_stack.last().copied()" => "option_copied(self.loop_stack.last())" count=1
     //@  ensures self.loop_stack@.len() == 0 ==> r is None
     //@  ensures self.loop_stack@.len() > 0 ==> r == Some(self.loop_stack@.last())
+    //@end
+
+
+    //@fn file=yarel/src/compiler.rs path=Compiler::pop_loop ret=r props=C04
+    //@  rewrite R15
+    //@  subst ".expect(\"Expected Vec.\")" => ".unwrap()"
+    //@  requires old(self).wf(), old(self).break_stack@.len() > 0, breaks_ok(*old(self))
+    //@  ensures final(self).wf(), final(self).chunk.code@.len() == old(self).chunk.code@.len()
+    //@  ensures final(self).locals@ == old(self).locals@ && final(self).upvalues@ == old(self).upvalues@ && final(self).scope_depth == old(self).scope_depth
+    //@  ensures final(self).break_stack@ == old(self).break_stack@.drop_last()
+    //@  ensures old(self).loop_stack@.len() > 0 ==> final(self).loop_stack@ == old(self).loop_stack@.drop_last()
+    //@  ensures r matches Err(e) ==> e is JumpTooLarge
+    //@  at body.start let ghost bps = self.break_stack@.last()@; let ghost n0 = self.chunk.code@.len();
+    //@  loop 0 iter it
+    //@  loop 0 invariant self.wf(), self.chunk.code@.len() == n0, n0 == old(self).chunk.code@.len(), break_points@ == bps, forall|j: int| 0 <= j < bps.len() ==> #[trigger] bps[j] + 2 <= n0
+    //@  loop 0 invariant self.locals@ == old(self).locals@ && self.upvalues@ == old(self).upvalues@ && self.scope_depth == old(self).scope_depth
+    //@  loop 0 invariant self.break_stack@ == old(self).break_stack@.drop_last(), old(self).loop_stack@.len() > 0 ==> self.loop_stack@ == old(self).loop_stack@.drop_last()
+    //@  loop 0 invariant it.seq().len() == bps.len(), forall|j: int| 0 <= j < bps.len() ==> *it.seq()[j] == bps[j]
     //@end
 
     //@fn file=yarel/src/compiler.rs path=Compiler::patch_jump ret=r
@@ -219,6 +253,21 @@ spec fn same_scope_duplicate(locals: Seq<Local>, d: usize, name: Seq<char>) -> b
 pub uninterp spec fn opcode_byte(op: OpCode) -> u8;
 #[verifier::external_body]
 fn opcode_u8(op: OpCode) -> (r: u8) ensures r == opcode_byte(op) { op as u8 }
+
+spec fn locals_same_shape(a: Seq<Local>, b: Seq<Local>) -> bool {
+    a.len() == b.len() && forall|i: int| 0 <= i < a.len() ==> (#[trigger] a[i]).name == b[i].name && a[i].depth == b[i].depth
+}
+
+spec fn same_compiler_but_locals(a: Compiler, b: Compiler) -> bool {
+    &&& a.function == b.function && a.kind == b.kind && a.upvalues == b.upvalues
+    &&& a.scope_depth == b.scope_depth && a.lambda_count == b.lambda_count && a.in_try_block == b.in_try_block
+    &&& a.loop_stack == b.loop_stack && a.break_stack == b.break_stack && a.chunk == b.chunk
+}
+
+// every recorded break position is the operand of a jump inside the code
+spec fn breaks_ok(c: Compiler) -> bool {
+    forall|i: int, j: int| 0 <= i < c.break_stack@.len() && 0 <= j < c.break_stack@[i]@.len() ==> (#[trigger] c.break_stack@[i]@[j]) + 2 <= c.chunk.code@.len()
+}
 
 spec fn same_compiler_but_loops(a: Compiler, b: Compiler) -> bool {
     &&& a.function == b.function && a.kind == b.kind && a.locals == b.locals && a.upvalues == b.upvalues
@@ -422,7 +471,41 @@ impl Parser {
         ensures final(self).pwf(), final(self).compilers.len() == old(self).compilers.len(),
             final(self).pushed == old(self).pushed + 1, final(self).pushed < 0x3000_0000,
             old(self).has_error() ==> final(self).has_error(),
-            old(self).code().len() <= final(self).code().len(),
+            old(self).code().len() <= final(self).code().len() < 0x2000_0000_0000_0000,
+            // an expression declares no locals in the function being compiled (a nested lambda may flag captures)
+            locals_same_shape(old(self).cur().locals@, final(self).cur().locals@),
+            final(self).cur().scope_depth == old(self).cur().scope_depth,
+            final(self).cur().loop_stack@ == old(self).cur().loop_stack@, final(self).cur().break_stack@ == old(self).cur().break_stack@,
+    { unimplemented!() }
+
+    // A block body: statements and declarations up to the closing brace. Locals it declares stay registered (the
+    // caller's end_scope discards them); loops inside are balanced. Assumed (the statement parser is out of reach).
+    #[verifier::external_body]
+    fn block(&mut self)
+        requires old(self).pwf(), 0 <= old(self).pushed,
+        ensures final(self).pwf(), final(self).compilers.len() == old(self).compilers.len(),
+            old(self).has_error() ==> final(self).has_error(), 0 <= final(self).pushed,
+            old(self).code().len() <= final(self).code().len() < 0x2000_0000_0000_0000,
+            final(self).cur().locals@.len() >= old(self).cur().locals@.len(),
+            locals_same_shape(old(self).cur().locals@, final(self).cur().locals@.subrange(0, old(self).cur().locals@.len() as int)),
+            all_initialised(old(self).cur().locals@) ==> all_initialised(final(self).cur().locals@),
+            final(self).cur().scope_depth == old(self).cur().scope_depth,
+            final(self).cur().loop_stack@ == old(self).cur().loop_stack@, final(self).cur().break_stack@ == old(self).cur().break_stack@,
+    { unimplemented!() }
+
+    #[verifier::external_body]
+    fn error_at_current(&mut self, message: &str)
+        ensures old(self).same_but_errors(final(self)), final(self).has_error(),
+    { unimplemented!() }
+
+    #[verifier::external_body]
+    fn identifier_constant(&mut self, token: &Token) -> (r: u16)
+        requires old(self).pwf()
+        ensures final(self).pwf(), old(self).has_error() ==> final(self).has_error(),
+            final(self).compilers.len() == old(self).compilers.len() && final(self).pushed == old(self).pushed,
+            final(self).code() == old(self).code(),
+            final(self).cur().locals@ == old(self).cur().locals@ && final(self).cur().scope_depth == old(self).cur().scope_depth,
+            final(self).cur().loop_stack@ == old(self).cur().loop_stack@, final(self).cur().break_stack@ == old(self).cur().break_stack@,
     { unimplemented!() }
 
     spec fn same_but_tokens_errors(&self, b: &Parser) -> bool {
@@ -535,6 +618,8 @@ impl Parser {
     //@  requires old(self).pwf(), old(self).cur().scope_depth < usize::MAX
     //@  ensures final(self).pwf(), final(self).cur().scope_depth == old(self).cur().scope_depth + 1
     //@  ensures final(self).cur().locals == old(self).cur().locals && final(self).code() == old(self).code() && final(self).compilers.len() == old(self).compilers.len()
+    //@  ensures final(self).pushed == old(self).pushed && final(self).errors == old(self).errors
+    //@  ensures final(self).cur().loop_stack@ == old(self).cur().loop_stack@ && final(self).cur().break_stack@ == old(self).cur().break_stack@
     //@end
 
     //@fn file=yarel/src/compiler.rs path=Parser::emit_scope_end props=C06,C04
@@ -572,6 +657,8 @@ impl Parser {
     //@  ensures final(self).code() == old(self).code() + scope_end_code(old(self).cur().locals@, (old(self).cur().scope_depth - 1) as usize)
     //@  ensures final(self).cur().locals@ == old(self).cur().locals@.subrange(0, old(self).cur().locals@.len() - drop_count(old(self).cur().locals@, (old(self).cur().scope_depth - 1) as usize))
     //@  ensures final(self).compilers.len() == old(self).compilers.len()
+    //@  ensures final(self).pushed == old(self).pushed && final(self).errors == old(self).errors
+    //@  ensures final(self).cur().loop_stack@ == old(self).cur().loop_stack@ && final(self).cur().break_stack@ == old(self).cur().break_stack@
     //@end
 
     // break: the locals of the scopes being left must be discarded BEFORE control leaves the loop body, so that the
@@ -610,6 +697,9 @@ impl Parser {
     //@  requires old(self).pwf()
     //@  ensures final(self).pwf(), old(self).has_error() ==> final(self).has_error(), final(self).compilers.len() == old(self).compilers.len()
     //@  ensures old(self).cur().scope_depth == 0 ==> *final(self) == *old(self)
+    //@  ensures final(self).pushed == old(self).pushed && final(self).cur().locals@.len() >= old(self).cur().locals@.len()
+    //@  ensures final(self).cur().locals@.subrange(0, old(self).cur().locals@.len() as int) == old(self).cur().locals@ && final(self).cur().locals@.len() <= old(self).cur().locals@.len() + 1
+    //@  ensures final(self).cur().loop_stack@ == old(self).cur().loop_stack@ && final(self).cur().break_stack@ == old(self).cur().break_stack@
     //@  ensures old(self).cur().scope_depth > 0 && !final(self).has_error() ==> final(self).cur().locals@.len() == old(self).cur().locals@.len() + 1 && final(self).cur().locals@.subrange(0, old(self).cur().locals@.len() as int) == old(self).cur().locals@ && final(self).cur().locals@.last().name@ == old(self).previous.source@ && final(self).cur().locals@.last().depth.is_none() && !final(self).cur().locals@.last().is_captured
     //@  ensures old(self).cur().scope_depth > 0 && !final(self).has_error() ==> !same_scope_duplicate(old(self).cur().locals@, old(self).cur().scope_depth, old(self).previous.source@)
     //@  ensures final(self).code() == old(self).code() && final(self).cur().upvalues@ == old(self).cur().upvalues@ && final(self).cur().scope_depth == old(self).cur().scope_depth
@@ -623,6 +713,14 @@ impl Parser {
     //@  after_stmt "__k0 -= 1" proof { assert(locs.subrange(0, __k0 as int + 1).drop_last() =~= locs.subrange(0, __k0 as int)); assert(locs.subrange(0, __k0 as int + 1).last() == locs[__k0 as int]); }
     //@  before_stmt "while __k0 > 0" proof { assert(locs.subrange(0, locs.len() as int) =~= locs); }
     //@end
+    //@fn file=yarel/src/compiler.rs path=Parser::mark_initialised props=C04,C06
+    //@  requires old(self).pwf(), old(self).cur().locals@.len() > 0
+    //@  ensures final(self).pwf(), final(self).compilers.len() == old(self).compilers.len(), final(self).errors == old(self).errors, final(self).pushed == old(self).pushed
+    //@  ensures final(self).cur().locals@.len() == old(self).cur().locals@.len() && same_compiler_but_locals(old(self).cur(), final(self).cur())
+    //@  ensures old(self).cur().scope_depth > 0 ==> final(self).cur().locals@.last().depth == Some(old(self).cur().scope_depth)
+    //@  ensures forall|j: int| 0 <= j < old(self).cur().locals@.len() - 1 ==> final(self).cur().locals@[j] == old(self).cur().locals@[j]
+    //@end
+
 }
 
 } // verus!
